@@ -11,12 +11,12 @@ open PU
 variable {σ α : Type} [DecidableEq σ] [LinearOrder α] [Mul α]
 
 /-- the empty exchange, `UistV1::new()` -/
-def init : Uist σ α := { book := { inner := [], last := 0 }, log := [], buffer := [] }
+abbrev init : Uist σ α := uinit
 
 /-- every state reachable from the empty exchange by any sequence of insert / delete / tick
     (with any admission order) satisfies the id invariant the one-tick theorems need -/
 theorem reachable_inv (ops : List (Op σ α)) : BookInv (run (init : Uist σ α) {} ops).1.book :=
-  (run_conserved ops init {} ⟨⟨by simp [init], by simp [init]⟩, by simp [init, ids]⟩).1
+  PU.reachable_inv ops
 
 /-- the table of the property, order type by order type: a quoted resting order triggers iff … -/
 theorem fill_iff_condition (o : Order σ α) (q : Quote α) : triggers o q = true ↔ Cond o q :=
